@@ -30,6 +30,8 @@ type c11Case struct {
 	Last     int      `json:"last"`     // last-stream-id index: -1 => 0, i => id of request i, N => above all
 	Code     uint32   `json:"code"`
 	After    []string `json:"after"` // events after the GOAWAY
+	// Graceful: the GOAWAY is preceded by GOAWAY(2^31-1, NO_ERROR), the announced shutdown of RFC 7540 6.8
+	Graceful bool `json:"graceful_first,omitempty"`
 }
 
 func c11Exec(cs c11Case) (*fw.Violation, *harness.Client) {
@@ -68,6 +70,14 @@ func c11Exec(cs c11Case) (*fw.Violation, *harness.Client) {
 		last = uint32(2*cs.N + 1)
 	case cs.Last >= 0:
 		last = uint32(2*cs.Last + 1)
+	}
+	if cs.Graceful {
+		h.Send(0, peer.GoAway(1<<31-1, 0, "shutting down"))
+		for i, c := range calls {
+			if c.Done {
+				return mk("request-ended-by-announcement", "graceful", fmt.Sprintf("GOAWAY(2^31-1) disclaims nothing, yet request r%d ended: err=%v", i, c.Err)), h
+			}
+		}
 	}
 	h.Send(0, peer.GoAway(last, cs.Code, "bye"))
 	shape := fmt.Sprintf("n=%d last=%s code=%s", cs.N, map[bool]string{true: "0", false: map[bool]string{true: "above-all", false: "in-flight-id"}[cs.Last >= cs.N]}[cs.Last < 0], peer.CodeName(cs.Code))
@@ -185,8 +195,128 @@ func c11Exec(cs c11Case) (*fw.Violation, *harness.Client) {
 	return nil, h
 }
 
+// c11Queued: requests that were handed to the connection before the GOAWAY was
+// read but are still in its queue when it is (the write loop is held up by a
+// server that has stopped reading for a while).
+type c11QCase struct {
+	InFlight int    `json:"in_flight"` // requests whose HEADERS are out before the stall
+	Queued   int    `json:"queued"`    // requests issued while the write loop is stuck
+	Last     uint32 `json:"last_stream_id"`
+	Graceful bool   `json:"graceful_first,omitempty"`
+}
+
+func c11Queued(cs c11QCase) (*fw.Violation, *harness.Client) {
+	h := harness.NewClient(harness.ClientOpts{})
+	shape := fmt.Sprintf("queued-behind-stalled-write in-flight=%d queued=%d", cs.InFlight, cs.Queued)
+	mk := func(rule, detail string) *fw.Violation {
+		return &fw.Violation{Rule: rule, Shape: shape, Detail: detail + "\n    events: " + strings.Join(h.EventLog, " ; ") + fmt.Sprintf("\n    live: %v", h.Live()), Replay: map[string]any{"family": "c11queued", "case": cs}}
+	}
+	var calls []*harness.CCall
+	spec := func(i int) harness.ReqSpec {
+		return harness.ReqSpec{Tag: fmt.Sprint("r", i), Method: "GET", Path: fmt.Sprint("/r", i), Headers: [][2]string{{"X-Tag", fmt.Sprint("r", i)}}}
+	}
+	calls = append(calls, h.Go(spec(0)))
+	for i := 1; i < cs.InFlight; i++ {
+		calls = append(calls, h.Go(spec(i)))
+	}
+	if len(h.Conns) != 1 || len(h.Conns[0].Order) != cs.InFlight {
+		return mk("harness", "setup failed"), h
+	}
+	srv := h.Conns[0]
+	h.ServerStall(0)
+	for i := 0; i < cs.Queued; i++ {
+		calls = append(calls, h.Go(spec(cs.InFlight+i)))
+	}
+	if cs.Graceful {
+		h.Send(0, peer.GoAway(1<<31-1, 0, "shutting down"))
+	}
+	h.Send(0, peer.GoAway(cs.Last, 0, "bye"), peer.Ping(false, [8]byte{7}))
+	h.ServerResume(0)
+	// the acknowledgement of the PING proves the GOAWAY had been read: nothing may be opened after it
+	ackAt := -1
+	for i, f := range srv.Out {
+		if f.Type == peer.TPing && f.Has(peer.FAck) && len(f.Payload) == 8 && f.Payload[0] == 7 {
+			ackAt = i
+		}
+	}
+	if ackAt >= 0 {
+		for i, f := range srv.Out {
+			if i > ackAt && f.Type == peer.THeaders {
+				return mk("stream-opened-after-goaway", fmt.Sprintf("stream %d was opened after the client had read the GOAWAY (PING acknowledgement is frame %d, the HEADERS frame %d)", f.Stream, ackAt, i)), h
+			}
+		}
+	}
+	where := map[string][]string{}
+	for ci, sc := range h.Conns {
+		for _, id := range sc.Order {
+			where[hdrVal(sc.Streams[id].Fields, "x-tag")] = append(where[hdrVal(sc.Streams[id].Fields, "x-tag")], fmt.Sprintf("%d/%d", ci, id))
+		}
+	}
+	for i, c := range calls {
+		tag := fmt.Sprint("r", i)
+		var id0 uint32
+		elsewhere := false
+		for _, w := range where[tag] {
+			var ci int
+			var id uint32
+			fmt.Sscanf(w, "%d/%d", &ci, &id)
+			if ci == 0 {
+				id0 = id
+			} else {
+				elsewhere = true
+			}
+		}
+		disclaimed := id0 == 0 || id0 > cs.Last
+		if disclaimed && !elsewhere && !c.Done {
+			return mk("disclaimed-request-left-waiting", fmt.Sprintf("request %s (%v; last-stream-id %d) is still waiting after the client has read the GOAWAY", tag, where[tag], cs.Last)), h
+		}
+		if c.Done && c.Err == nil {
+			return mk("success-without-response", fmt.Sprintf("request %s reports success, no server answered anything", tag)), h
+		}
+		if c.Done && c.Retry && !disclaimed {
+			return mk("retryable-although-possibly-processed", fmt.Sprintf("request %s on stream %d <= last-stream-id %d reported retryable: %v", tag, id0, cs.Last, c.Err)), h
+		}
+		if len(where[tag]) > 1 && !disclaimed {
+			return mk("request-sent-twice", fmt.Sprintf("request %s reached servers on %v", tag, where[tag])), h
+		}
+	}
+	if len(h.S.Panics) > 0 {
+		return mk("process-would-crash", strings.Join(h.S.Panics, "; ")), h
+	}
+	return nil, h
+}
+
 func runC11(c *fw.Ctx) {
 	runSpxFamily(c, "C11")
+	{
+		var item int64 = 1 << 45
+		for inflight := 1; inflight <= 2; inflight++ {
+			for queued := 1; queued <= 3; queued++ {
+				for _, last := range []uint32{0, 1, 3, 5, 9} {
+					for _, g := range []bool{false, true} {
+						if item++; !c.Mine(item) {
+							continue
+						}
+						cs := c11QCase{InFlight: inflight, Queued: queued, Last: last, Graceful: g}
+						v, h := c11Queued(cs)
+						js, _ := json.Marshal(cs)
+						c.Eval(nt(true, append([]byte("queued"), js...)))
+						c.AddTransitions(int64(h.Events))
+						c.AddTraces(1)
+						c.State(fw.Hash("queued", h.Digest()))
+						if v != nil {
+							c.Violate(*v)
+							c.Outcome(v.Rule)
+						} else {
+							c.Outcome("honoured:queued")
+						}
+						h.Close()
+					}
+				}
+			}
+		}
+		c.Family("queued-behind-stalled-write")
+	}
 	thorough := c.Tier == "thorough"
 	var item int64
 	sampled := 0
@@ -240,30 +370,35 @@ func runC11(c *fw.Ctx) {
 					}
 					recs(nil, 0)
 					for _, after := range seqs {
-						if item++; !c.Mine(item) {
-							continue
+						for _, graceful := range []bool{false, true} {
+							if item++; !c.Mine(item) {
+								continue
+							}
+							if c.Expired("C11") {
+								return
+							}
+							if !thorough && graceful != (len(after)%2 == 1 || last == n) {
+								continue // quick: one of the two variants per case
+							}
+							cs := c11Case{N: n, Progress: prog, Last: last, Code: code, After: after, Graceful: graceful}
+							v, h := c11Exec(cs)
+							js, _ := json.Marshal(cs)
+							c.Eval(nt(true, js))
+							c.AddTransitions(int64(h.Events))
+							c.AddTraces(1)
+							c.State(fw.Hash(h.Digest()))
+							if v != nil {
+								c.Violate(*v)
+								c.Outcome(v.Rule)
+							} else {
+								c.Outcome("honoured")
+							}
+							if sampled < 3 && n == 2 && len(after) == 2 {
+								sampled++
+								c.Sample(map[string]any{"case": cs, "events": h.EventLog})
+							}
+							h.Close()
 						}
-						if c.Expired("C11") {
-							return
-						}
-						cs := c11Case{N: n, Progress: prog, Last: last, Code: code, After: after}
-						v, h := c11Exec(cs)
-						js, _ := json.Marshal(cs)
-						c.Eval(nt(true, js))
-						c.AddTransitions(int64(h.Events))
-						c.AddTraces(1)
-						c.State(fw.Hash(h.Digest()))
-						if v != nil {
-							c.Violate(*v)
-							c.Outcome(v.Rule)
-						} else {
-							c.Outcome("honoured")
-						}
-						if sampled < 3 && n == 2 && len(after) == 2 {
-							sampled++
-							c.Sample(map[string]any{"case": cs, "events": h.EventLog})
-						}
-						h.Close()
 					}
 				}
 			}
@@ -271,7 +406,25 @@ func runC11(c *fw.Ctx) {
 	}
 }
 
+func replayC11Queued(raw json.RawMessage) (string, bool) {
+	var cs c11QCase
+	json.Unmarshal(raw, &cs)
+	v, h := c11Queued(cs)
+	defer h.Close()
+	if v != nil {
+		return v.Rule + " [" + v.Shape + "]: " + v.Detail, true
+	}
+	return "GOAWAY honoured: " + strings.Join(h.EventLog, " ; "), false
+}
+
 func replayC11(raw json.RawMessage) (string, bool) {
+	var fam struct {
+		Family string          `json:"family"`
+		Case   json.RawMessage `json:"case"`
+	}
+	if json.Unmarshal(raw, &fam) == nil && fam.Family == "c11queued" {
+		return replayC11Queued(fam.Case)
+	}
 	var r struct {
 		Case c11Case `json:"case"`
 	}
